@@ -8,7 +8,7 @@ structure BankD where
   burn : Bytes := []
   module : Bytes := []
   tracked : List (Bytes × Bytes) := []     -- (addr, denom) in print order
-  supply0 : Nat := 1000000000000           -- model supply baseline (only deltas are printed)
+  supply0 : Nat := 10000000000000000000000000000000000000000           -- model supply baseline (only deltas are printed)
 
 def kvs (toks : List String) : List (String × String) :=
   toks.filterMap fun t => match t.splitOn "=" with | [k, v] => some (k, v) | _ => none
@@ -25,7 +25,7 @@ def bankStep (d : BankD) : List String → Option (BankD × String)
         | _ => none
       let st : Bank.State := {
         bal := fun a dn => match bals.find? (fun e => e.1 == a && e.2.1 == dn) with | some e => e.2.2 | none => 0,
-        locked := fun _ _ => 0, supply := fun _ => 1000000000000, denoms := denoms }
+        locked := fun _ _ => 0, supply := fun _ => 10000000000000000000000000000000000000000, denoms := denoms }
       pure ({ st := st, burn := burn, module := module, tracked := bals.map fun e => (e.1, e.2.1) }, "-")
   | ["bank.send", a, b, dn, n] => do
       let a ← Bytes.ofHex a; let b ← Bytes.ofHex b; let dn ← Bytes.ofHex dn; let n ← n.toNat?
@@ -42,7 +42,7 @@ def bankStep (d : BankD) : List String → Option (BankD × String)
   | ["bank.state"] =>
       let bals := ",".intercalate (d.tracked.map fun e => toString (d.st.bal e.1 e.2))
       let sp := ",".intercalate (d.st.denoms.map fun dn => toString (spendable d.st d.burn dn))
-      let bu := ",".intercalate (d.st.denoms.map fun dn => toString (1000000000000 - d.st.supply dn))
+      let bu := ",".intercalate (d.st.denoms.map fun dn => toString (10000000000000000000000000000000000000000 - d.st.supply dn))
       some (d, "ok bals=" ++ bals ++ " burnSpendable=" ++ sp ++ " burned=" ++ bu)
   | ["mon.c07.inv"] => some (d, "pass")     -- the model has no way to lose coins: `Properties/C07`
   | _ => none
